@@ -17,6 +17,7 @@ from .utils.yaml_utils import SnowfakeryDumper, hydrate
 from .row_history import RowHistory
 from .template_funcs import StandardFuncs
 from .data_gen_exceptions import (
+    DataGenError,
     DataGenSyntaxError,
     DataGenNameError,
     DataGenValueError,
@@ -528,11 +529,20 @@ class RuntimeContext:
         else:
             self._plugin_context_vars = ChainMap()
         locale = self.variable_definitions().get("snowfakery_locale")
-        if isinstance(locale, (list, dict)):
-            raise DataGenValueError(
-                f"snowfakery_locale should be a locale name such as `fr_FR`, not `{locale}`"
+        try:
+            if isinstance(locale, (list, dict)):
+                raise DataGenValueError(
+                    f"snowfakery_locale should be a locale name such as `fr_FR`, not `{locale}`"
+                )
+            self.faker_template_library = self.interpreter.faker_template_library(
+                locale
             )
-        self.faker_template_library = self.interpreter.faker_template_library(locale)
+        except DataGenError as e:
+            # the statement evaluated under the faulty locale is the nearest place to point at
+            if current_template and not e.filename:
+                e.filename = getattr(current_template, "filename", None)
+                e.line_num = getattr(current_template, "line_num", None)
+            raise
         self.local_vars = {}
 
     @property
